@@ -105,7 +105,12 @@ impl SWCurveConfig for Config {
             read_g1_uncompressed(&mut reader)?
         };
 
-        if validate == ark_serialize::Validate::Yes && !p.is_in_correct_subgroup_assuming_on_curve()
+        // An uncompressed encoding carries both coordinates, so the curve
+        // equation has to be checked as well (a compressed one recovers `y`
+        // from it).
+        if validate == ark_serialize::Validate::Yes
+            && ((compress == ark_serialize::Compress::No && !p.is_on_curve())
+                || !p.is_in_correct_subgroup_assuming_on_curve())
         {
             return Err(SerializationError::InvalidData);
         }
